@@ -704,6 +704,314 @@ def directed_fix_search(ck, metas):
             ck.counterexample(f'fix-stereo-not-idempotent:{smi}', 'a second fix_stereo changes the labels', {'smiles': smi, 'labels': repr(labels)},
                               repr(labels_of(again)), repr(kept), 'idempotence')
 
+# ---------------------------------------------------------------------------------------------------------------
+# add_wedge (coq/model/StereoWedge.v) and the label-setting API after the SMILES was cached
+
+def wedge_inputs(ck):
+    """(family, molecule with integer 2D coordinates): allenes a-C(b)=C=C(c)-d and longer odd cumulenes with every end decoration
+    (two heavy substituents, one, explicit H), tetrahedral centres with 3 / 4 neighbours and explicit H; written numbering and
+    shuffled numbering / bond-table orders; random integer coordinates in general position"""
+    from chython import smiles
+    rng = random.Random(f'{ck.seed}:wedge')
+    smis = ['NC(Br)=C=C(O)C', 'CC(F)=C=C(Cl)C', 'NC=C=C(O)C', 'NC(Br)=C=CO', 'FC=C=CCl', '[H]C(F)=C=C([H])Cl', 'NC(Br)=C=C(O)[H]',
+            'NC(Br)=C=C=C=C(O)C', 'CC(F)=C=C1CCC(C)CC1', 'C(Br)(N)=C=C(C)O',
+            'NC(Br)(O)C', 'NC(Br)O', '[H]C(N)(Br)O', 'NC([H])(Br)O', 'C[C@H](N)C(=O)O'.replace('[C@H]', 'C'), 'OC1CCCC(N)C1', 'NC(Br)(O)C(F)Cl']
+    out = []
+    for smi in smis:
+        base = smiles(smi)
+        for k in range(3 if ck.tier == 'quick' else 10):
+            m = reshuffle(base, rng) if k else base.copy()
+            pts = rng.sample([(x, y) for x in range(-9, 10) for y in range(-9, 10)], len(m._atoms))
+            for (n, a), p in zip(m._atoms.items(), pts):
+                a.xy = p
+            m.flush_cache()
+            out.append((smi, m))
+    return out
+
+
+def coords_term(m):
+    return lst([f'({zraw(n)}, ({zraw(int(a.x))}, {zraw(int(a.y))}))' for n, a in m._atoms.items()])
+
+
+WEDGE_EXTRA = """
+Definition ish (l : list Z) (x : Z) : bool := zmem x l.
+Definition ob_eqb (a b : option bool) : bool := option_eqb Bool.eqb a b.
+Definition wal_ok (hs : list Z) (e : env4s) (t1 t2 n m : Z) (c : list (Z * (Z * Z))) (mark : Z) (r : pyres (option bool)) : bool :=
+  pyres_eqb ob_eqb (wedge_al (ish hs) e t1 t2 n m c mark) r.
+Definition wth_ok (hs th nb : list Z) (n m : Z) (c : list (Z * (Z * Z))) (mark : Z) (r : pyres (option bool)) : bool :=
+  pyres_eqb ob_eqb (wedge_th (ish hs) th nb n m c mark) r.
+Definition api_ct_ok (hs : list Z) (e : env4s) (fwd : bool) (n1 n2 : Z) (mark : bool) (r : pyres bool) (cache_dropped : bool) : bool :=
+  pyres_eqb Bool.eqb (read_ct (ish hs) e fwd n1 n2 mark true) r && Bool.eqb cache_dropped (api_drops_smiles_cache true).
+"""
+
+
+def corr_wedge(ck):
+    """add_wedge of the real code on every bond (n -> m, up and down) of every allene terminal / tetrahedral centre == model;
+    add_cis_trans_stereo called through the public API from either end after str() == model (stored sign, cache dropped)"""
+    from chython import smiles
+    from chython.exceptions import NotChiral, IsChiral, AtomNotFound
+    cases, meta = [], []
+    for smi, m in wedge_inputs(ck):
+        hs = lst([k for k, a in m._atoms.items() if a.atomic_number == 1], zraw)
+        ct = coords_term(m)
+        starts = {t: c for c, ts in m._stereo_allenes_terminals.items() for t in ts}
+        for n in list(starts) + list(m.stereogenic_tetrahedrons):
+            for x in m._bonds[n]:
+                for mark in (1, -1):
+                    w = m.copy()
+                    try:
+                        w.add_wedge(n, x, mark)
+                    except (NotChiral, IsChiral, AtomNotFound):
+                        ck.count('wedge: guard raised (not compared)')
+                        continue
+                    except Exception as e:
+                        got = 'Err ' + EXN.get(type(e).__name__, 'OtherError')
+                    else:
+                        c = starts.get(n, n)
+                        got = f'Ok {opt(w._atoms[c].stereo, b)}'
+                    if n in starts:
+                        c = starts[n]
+                        t1, t2 = m._stereo_allenes_terminals[c]
+                        cases.append(f'wal_ok {hs} {envterm(m.stereogenic_allenes[c])} {zraw(t1)} {zraw(t2)} {zraw(n)} {zraw(x)} {ct} {zraw(mark)} ({got})')
+                        ck.count('wedge: allene ' + ('position %s' % (m.stereogenic_allenes[c].index(x) if x in m.stereogenic_allenes[c] else 'H/chain')))
+                    else:
+                        cases.append(f'wth_ok {hs} {lst(m.stereogenic_tetrahedrons[n], zraw)} {lst(list(m._bonds[n]), zraw)} {zraw(n)} {zraw(x)} {ct} {zraw(mark)} ({got})')
+                        ck.count('wedge: tetrahedron')
+                    meta.append((smi, list(m._atoms), n, x, mark, got))
+                    ck.case(('wedge', smi, tuple(m._atoms), n, x, mark), nontrivial=got.startswith('Ok (Some'))
+    # ---- the public API after the SMILES was cached: both orders of the terminal atoms
+    for smi in ('FC=CF', 'FC=CC=CCl', 'CC=C=C=CC', 'FC(Cl)=C(Br)I', '[H]C(F)=C([H])Cl', 'CC=C1CCC(C)CC1'):
+        base = smiles(smi)
+        hs = lst([k for k, a in base._atoms.items() if a.atomic_number == 1], zraw)
+        for (a, c), e in base.stereogenic_cis_trans.items():
+            subs_a = [x for x in (e[0], e[2]) if x is not None]
+            subs_c = [x for x in (e[1], e[3]) if x is not None]
+            for x in subs_a:
+                for y in subs_c:
+                    for mark in (True, False):
+                        for fwd in (True, False):
+                            m = base.copy()
+                            str(m), hash(m)
+                            try:
+                                if fwd:
+                                    m.add_cis_trans_stereo(a, c, x, y, mark)
+                                else:
+                                    m.add_cis_trans_stereo(c, a, y, x, mark)
+                            except (NotChiral, IsChiral):
+                                continue
+                            i, j = m._stereo_cis_trans_centers[a]
+                            dropped = '__cached_method___str__' not in m.__dict__
+                            n1, n2 = (x, y) if fwd else (y, x)
+                            cases.append(f'api_ct_ok {hs} {envterm(e)} {b(fwd)} {zraw(n1)} {zraw(n2)} {b(mark)} (Ok {b(m._bonds[i][j].stereo)}) {b(dropped)}')
+                            meta.append((smi, 'add_cis_trans_stereo', (a, c), (x, y), mark, fwd, dropped))
+                            ck.case(('api-ct', smi, a, c, x, y, mark, fwd))
+                            ck.count('api: add_cis_trans_stereo ' + ('key order' if fwd else 'far end first'))
+    ok, failing, log = coqcases.run_cases('c12wedge', 'Stereo StereoSmiles StereoWedge', cases, extra=WEDGE_EXTRA, shard=300)
+    ck.oblige('correspondence: add_wedge (allene / tetrahedron) and add_cis_trans_stereo from either end == Coq model', ok and not failing,
+              'correspondence', log or str([meta[i] for i in failing[:5]]))
+    ck.extra['wedge_cases'] = len(cases)
+    if not ok or failing:
+        search_wedge(ck, thorough=True)
+        search_api_cache(ck)
+        ck.unchecked('correspondence StereoWedge model vs add_wedge / add_cis_trans_stereo', log[-1500:], [repr(meta[i]) for i in failing[:20]])
+    return ok and not failing
+
+
+def _det3(u, v, w):
+    return (u[0] * (v[1] * w[2] - v[2] * w[1]) - u[1] * (v[0] * w[2] - v[2] * w[0]) + u[2] * (v[0] * w[1] - v[1] * w[0]))
+
+
+def _calibrate():
+    """sign convention taken from RDKit, not from chython: for neighbours a, b, c, d of a centre at 3D positions p, the SMILES
+    a[C@](b)(c)d  <=>  det(b - a, c - a, d - a) < 0 ?"""
+    from rdkit import Chem
+    from rdkit.Geometry import Point3D
+    import math
+    rm = Chem.RWMol(Chem.MolFromSmiles('NC(Br)(O)C'))
+    pos = {0: (0, 0, 1), 1: (0, 0, 0), 2: (1, 0, -.3), 3: (math.cos(2.094), math.sin(2.094), -.3), 4: (math.cos(4.188), math.sin(4.188), -.3)}
+    conf = Chem.Conformer(rm.GetNumAtoms())
+    for i, p in pos.items():
+        conf.SetAtomPosition(i, Point3D(*p))
+    conf.Set3D(True)
+    rm.AddConformer(conf)
+    Chem.AssignStereochemistryFrom3D(rm)
+    sub = lambda p, q: tuple(x - y for x, y in zip(p, q))
+    det = _det3(sub(pos[2], pos[0]), sub(pos[3], pos[0]), sub(pos[4], pos[0]))
+    is_at = Chem.MolToSmiles(rm) == Chem.MolToSmiles(Chem.MolFromSmiles('N[C@](Br)(O)C'))
+    return (det < 0) == is_at      # True: negative volume <=> '@'
+
+
+def search_wedge(ck, thorough=False):
+    """independent oracles for add_wedge: (1) a 3D model of the drawing (the wedged substituent lifted, its geminal partner lowered)
+    gives the expected SMILES through the volume sign, convention calibrated with RDKit; (2) wedge to one geminal substituent ==
+    hash to the other; (3) the wedges the library itself writes (_wedge_map) restore the label through add_wedge"""
+    from chython import smiles
+    neg_is_at = _calibrate()
+    sub = lambda p, q: tuple(x - y for x, y in zip(p, q))
+    # ---- (1) + (2): allenes a-C(b)=C=C(c)-d, atoms numbered 1..7 as written
+    XY = {1: (-3, 2), 2: (-2, 0), 3: (-3, -2), 4: (0, 0), 5: (2, 0), 6: (3, 2), 7: (3, -2)}
+    GEM = {1: 3, 3: 1, 6: 7, 7: 6}
+    TERM = {1: 2, 3: 2, 6: 5, 7: 5}
+    for a, b_, c, d in (('N', 'Br', 'O', 'C'), ('C', 'F', 'Cl', 'C'), ('N', '[H]', 'O', 'C'), ('C', 'F', '[H]', 'Cl'), ('O', 'C', 'C', 'N')):
+        tmpl = f'{a}C({b_})=C=C({c}){d}'
+        labels = {}
+        for x in (1, 3, 6, 7):
+            for mark in (1, -1):
+                m = smiles(tmpl)
+                for n, at in m.atoms():
+                    at.xy = XY[n]
+                str(m)
+                try:
+                    m.add_wedge(TERM[x], x, mark)
+                except Exception as e:
+                    ck.counterexample(f'wedge-raises:{tmpl}:{TERM[x]}>{x}', f'add_wedge raises {type(e).__name__} on a stereogenic allene', {'smiles': tmpl, 'wedge': (TERM[x], x, mark)},
+                                      repr(e), 'a label', 'drawing')
+                    continue
+                q = {n: (p[0], p[1], 0) for n, p in XY.items()}
+                q[x] = (XY[x][0], 0, mark)
+                q[GEM[x]] = (XY[x][0], 0, -mark)
+                det = _det3(sub(q[3], q[1]), sub(q[6], q[1]), sub(q[7], q[1]))
+                at_ = (det < 0) == neg_is_at
+                exp = f'{a}C({b_})=[C{"@" if at_ else "@@"}]=C({c}){d}'
+                ck.case(('wedge3d', tmpl, x, mark))
+                ck.count('wedge search: allene 3D model')
+                labels[(x, mark)] = m._atoms[4].stereo
+                if m != smiles(exp):
+                    ck.counterexample(f'wedge-allene:{tmpl}:{TERM[x]}>{x}:{mark}', 'the label add_wedge derives from a drawn allene is not the configuration of the drawing '
+                                      '(3D model of the drawing, sign convention from RDKit)', {'smiles': tmpl, 'xy': XY, 'wedge': (TERM[x], x, mark)}, str(m), exp,
+                                      '3D volume sign + RDKit convention',
+                                      replay_py=f"from chython import smiles; m=smiles({tmpl!r}); [setattr(a,'xy',{XY!r}[n]) for n,a in m.atoms()]; m.add_wedge({TERM[x]},{x},{mark}); print(m)")
+        for x in (1, 6):
+            for mark in (1, -1):
+                if (x, mark) in labels and (GEM[x], -mark) in labels and labels[(x, mark)] != labels[(GEM[x], -mark)]:
+                    ck.counterexample(f'wedge-geminal:{tmpl}:{x}', 'wedge to one substituent and hash to its geminal partner (one spatial arrangement) give different labels',
+                                      {'smiles': tmpl, 'atoms': (x, GEM[x])}, (labels[(x, mark)], labels[(GEM[x], -mark)]), 'equal', 'geometry')
+    # ---- (1) tetrahedra a-C(b)(c)-d
+    XT = {1: (-2, 1), 2: (0, 0), 3: (2, 2), 4: (2, -1), 5: (-1, -2)}
+    for a, b_, c, d in (('N', 'Br', 'O', 'C'), ('F', 'Cl', 'Br', 'I'), ('N', '[H]', 'O', 'C')):
+        tmpl = f'{a}C({b_})({c}){d}'
+        for x in (1, 3, 4, 5):
+            for mark in (1, -1):
+                m = smiles(tmpl)
+                for n, at in m.atoms():
+                    at.xy = XT[n]
+                str(m)
+                try:
+                    m.add_wedge(2, x, mark)
+                except Exception:
+                    continue
+                q = {n: (p[0], p[1], 0) for n, p in XT.items()}
+                q[x] = (XT[x][0], XT[x][1], mark)
+                det = _det3(sub(q[3], q[1]), sub(q[4], q[1]), sub(q[5], q[1]))
+                exp = f'{a}[C{"@" if (det < 0) == neg_is_at else "@@"}]({b_})({c}){d}'
+                ck.case(('wedge3d', tmpl, x, mark))
+                ck.count('wedge search: tetrahedron 3D model')
+                if m != smiles(exp):
+                    ck.counterexample(f'wedge-th:{tmpl}:2>{x}:{mark}', 'the label add_wedge derives from a drawn tetrahedron is not the configuration of the drawing',
+                                      {'smiles': tmpl, 'xy': XT, 'wedge': (2, x, mark)}, str(m), exp, '3D volume sign + RDKit convention')
+    # ---- (3) round trip through the library's own wedge writer
+    for smi, m0 in wedge_inputs(ck):
+        for sign in (True, False):
+            m = m0.copy()
+            cents = list(m.stereogenic_allenes) + list(m.stereogenic_tetrahedrons)
+            for c in cents:
+                m._atoms[c]._stereo = sign
+            m.flush_cache()
+            m.fix_stereo()
+            kept = {c: m._atoms[c].stereo for c in cents if m._atoms[c].stereo is not None}
+            if not kept:
+                continue
+            try:
+                wm = list(m._wedge_map)
+            except Exception:
+                continue
+            w = m.copy()
+            w.clean_stereo()
+            for n, x, mark in wm:
+                if mark:
+                    try:
+                        w.add_wedge(n, x, mark)
+                    except Exception:
+                        pass
+            back = {c: w._atoms[c].stereo for c in kept}
+            ck.case(('wedge-roundtrip', smi, tuple(m._atoms), sign))
+            ck.count('wedge search: _wedge_map round trips')
+            # tetrahedra with an explicit hydrogen are left out: the writer takes the centre, the reader the hydrogen as the fourth
+            # point, which agree in drawings (hydrogen on the far side of its neighbours) but not for random coordinates
+            bad = [c for c in kept if back[c] is not None and back[c] != kept[c] and
+                   not any(m._atoms[x].atomic_number == 1 for x in m._bonds[c])]
+            if bad:
+                ck.counterexample(f'wedge-roundtrip:{smi}', 'the wedge bonds written for a labelled molecule (_wedge_map) are read back by add_wedge as another configuration',
+                                  {'smiles': smi, 'atoms': list(m._atoms), 'xy': {n: (a.x, a.y) for n, a in m._atoms.items()}, 'wedges': wm}, back, kept,
+                                  'wedge writer / reader round trip')
+
+
+def search_api_cache(ck):
+    """after ANY label-setting call of the public API the molecule must print, compare and hash like a molecule rebuilt from
+    scratch with the same labels -- also when str()/hash() were evaluated before the call (cached SMILES) and from whichever end
+    the double bond is named; the E and Z isomers never compare equal (RDKit reads the two strings as different molecules)"""
+    from chython import smiles
+    from rdkit import Chem
+    def fresh(m):
+        c = m.copy()
+        c.flush_cache()
+        return str(c)
+    def probe(tag, smi, m, want_label=True):
+        ck.case(('api-cache', tag, smi))
+        ck.count('api search: ' + tag.split(':')[0])
+        if str(m) != fresh(m) or hash(m) != hash(smiles(fresh(m))):
+            ck.counterexample(f'stale-smiles:{tag}:{smi}', 'after a label-setting call str()/hash()/== still use the SMILES cached before the call',
+                              {'smiles': smi, 'call': tag}, str(m), fresh(m), 'molecule rebuilt from scratch (copy without cache)',
+                              replay_py=f"from chython import smiles; m=smiles({smi!r}); str(m); # then {tag}; print(str(m))")
+            return False
+        return True
+    for smi in ('FC=CF', 'FC=CC=CCl', 'CC=C=C=CC', 'FC(Cl)=C(Br)I', 'CC=C1CCC(C)CC1'):
+        base = smiles(smi)
+        for (a, c), e in base.stereogenic_cis_trans.items():
+            outs = {}
+            for fwd in (True, False):
+                for mark in (True, False):
+                    m = base.copy()
+                    str(m), hash(m)
+                    try:
+                        m.add_cis_trans_stereo(*((a, c, e[0], e[1]) if fwd else (c, a, e[1], e[0])), mark)
+                    except Exception:
+                        continue
+                    if probe(f'add_cis_trans_stereo{"" if fwd else "(far end first)"}:{a},{c}', smi, m):
+                        outs[(fwd, mark)] = str(m)
+            for fwd in (True, False):
+                if (fwd, True) in outs and (fwd, False) in outs:
+                    r1, r2 = Chem.MolFromSmiles(outs[(fwd, True)]), Chem.MolFromSmiles(outs[(fwd, False)])
+                    sees = r1 is not None and r2 is not None and Chem.MolToSmiles(r1) != Chem.MolToSmiles(r1, isomericSmiles=False)   # RDKit perceives this bond
+                    if outs[(fwd, True)] == outs[(fwd, False)] or (sees and Chem.MolToSmiles(r1) == Chem.MolToSmiles(r2)):
+                        ck.counterexample(f'ez-equal:{smi}:{a},{c}:{fwd}', 'the E and the Z isomer built through the API print the same SMILES', {'smiles': smi, 'bond': (a, c)},
+                                          outs[(fwd, True)], 'two different strings', 'RDKit canonical isomeric SMILES')
+    for smi, n, envs in (('NC(Br)(O)C', 2, [(1, 3, 4, 5), (3, 1, 4, 5)]), ('NC(Br)=C=C(O)C', 4, [(1, 6), (3, 6), (1, 7)])):
+        for env in envs:
+            for mark in (True, False):
+                m = smiles(smi)
+                str(m), hash(m)
+                m.add_atom_stereo(n, env, mark)
+                probe('add_atom_stereo', smi, m)
+                m.clean_stereo()
+                probe('clean_stereo', smi, m)
+    XY = {1: (-3, 2), 2: (-2, 0), 3: (-3, -2), 4: (0, 0), 5: (2, 0), 6: (3, 2), 7: (3, -2)}
+    for smi, pairs in (('NC(Br)=C=C(O)C', [(2, 1), (2, 3), (5, 6), (5, 7)]), ('NC(Br)(O)C', [(2, 1), (2, 3), (2, 4), (2, 5)])):
+        for n, x in pairs:
+            m = smiles(smi)
+            for k, at in m.atoms():
+                at.xy = XY[k]
+            str(m), hash(m)
+            m.add_wedge(n, x, 1)
+            probe('add_wedge', smi, m)
+    for smi in ('FC=CF', 'FC=CC=CCl'):
+        m = smiles(smi)
+        for k, at in m.atoms():
+            at.xy = (2 * k, k % 2)
+        str(m), hash(m)
+        m.calculate_cis_trans_from_2d()
+        probe('calculate_cis_trans_from_2d', smi, m)
+
 
 def search(ck, budget):
     """property-level oracles on the real code, independent of the model"""
@@ -821,6 +1129,8 @@ def search(ck, budget):
     search_stereogenic(ck, pool)
     search_allenes(ck)
     search_printable(ck)
+    search_wedge(ck)
+    search_api_cache(ck)
     # (3) labels are kept only on stereogenic centres
     for smi, keeps in (('C[C@](C)(F)Cl', False), ('C[C@H](C)F', False), ('C[C@H](N)F', True), ('F/C=C(/Cl)Cl', False),
                        ('F/C=C/Cl', True), ('CC(C)=[C@]=CC', False), ('C[C@@H]1CC1', False), ('C/C=C/C', True)):
@@ -1035,11 +1345,12 @@ def run(ck):
                         'states of 27 templates. non-trivial = the implementation returned a sign / the molecule has a registry entry / a label is dropped or '
                         'several labels interact. search: corpus stereo molecules respelled by chython and re-read by RDKit; non-trivial = has at least one '
                         'stereo element')
-    proved = common.standard_proof_steps(ck, translators=['stereo', 'elements'], extra_targets=['model/StereoRegistry.vo', 'model/StereoSmiles.vo', 'model/StereoFix.vo'])
+    proved = common.standard_proof_steps(ck, translators=['stereo', 'elements'], extra_targets=['model/StereoRegistry.vo', 'model/StereoSmiles.vo', 'model/StereoFix.vo', 'model/StereoWedge.vo'])
     tied = corr_translate(ck)
     tied = corr_registries(ck) and tied
     tied = corr_smiles_marks(ck) and tied
     tied = corr_fix_stereo(ck) and tied
+    tied = corr_wedge(ck) and tied
     search(ck, 150 if ck.tier == 'quick' else 1500)
     ck.extra['proved'] = proved
     ck.extra['tied'] = tied
